@@ -222,6 +222,10 @@ def run(tier='quick'):
             chk.ok(X3, 'factory %s -> %s' % (en, cls.split('::')[-1]), locstr(ff.node))
     _check_same_creator(prog, chk, X3)
     _schema_passthrough(prog, chk, X3)
+    X4 = chk.rule('X4', 'a created library is recognised on load: the layout probe decides by the presence of m.db and '
+                        'Database2/m.db alone (a Database2 directory without m.db is not a 2.x library)', floor=8)
+    from . import c13 as _c13
+    _c13._layout(prog, chk, X4)
     return chk.finish(
         'Static comparison of DDL: the statement list each of the %d creator classes executes '
         '(final overriders resolved by class hierarchy, read from the clang AST) is interpreted over '
